@@ -7,7 +7,7 @@ from common import rng_for
 
 PID = 'C13'
 TAGS = ['tstart', 'tdone', 'tabort', 'log']
-RULE = ('1-2 pipes (throughput 1/3, 3/10, 1, 2, 3, 4, 10 or infinite) and 2-7 activities that start transfers at arbitrary '
+RULE = ('1-2 pipes (throughput 1/3, 3/10, 1, 2, 3, 4, 10, UnboundedPipe or Pipe(inf)) and 2-7 activities that start transfers at arbitrary '
         '(overlapping) times with volumes 0..10 (incl. non-dyadic) and limits none / below / above the pipe\'s throughput, one after '
         'another or concurrently; some run inside until()-scopes with deadlines, in child tasks cancelled at a chosen time or in '
         'volatile tasks closed with their scope, each followed by a probe transfer; IEEE doubles as in the implementation. '
@@ -15,7 +15,7 @@ RULE = ('1-2 pipes (throughput 1/3, 3/10, 1, 2, 3, 4, 10 or infinite) and 2-7 ac
         'rational fluid model over the implementation\'s trace (tolerance 1e-9 relative for rounding). '
         'non-trivial = at least two transfers overlap in time on one finite pipe')
 
-THROUGHPUTS = [1, 2, 3, 4, 10, F(1, 3), F(3, 10), 'inf']
+THROUGHPUTS = [1, 2, 3, 4, 10, F(1, 3), F(3, 10), 'inf', 'pinf']
 VOLUMES = [0, 1, 2, 3, 5, 7, 10, F(1, 2), F(7, 10), F(10, 3)]
 LIMITS = [None, None, 1, 2, 3, 5, F(1, 2), F(1, 10), F(2, 3), 20]
 TIMES = [0, 0, F(1, 2), 1, 1, 2, 3, F(1, 3), F(5, 2)]
@@ -92,7 +92,7 @@ def rational_view(impl):
 
 def params_of(sc):
     pipes = next(f for f in sc if isinstance(f, list) and f and f[0] == 'pipes')[1:]
-    return ' '.join('inf' if p == 'inf' else fs(F(float(p))) for p in pipes)
+    return ' '.join('inf' if p in ('inf', 'pinf') else fs(F(float(p))) for p in pipes)
 
 
 def nontrivial(impl):
